@@ -3,6 +3,7 @@ package main
 import (
 	"fmt"
 	"go/token"
+	"go/types"
 	"strings"
 
 	"golang.org/x/tools/go/ssa"
@@ -389,7 +390,24 @@ func checkC02(c *Ctx, w *World) {
 				return false
 			})
 			c.check(ok, "C02.snapshot", "newGCPPicker argument", p.ipos(call), "snapshot is the empty literal extended only by the READY appends", "snapshot slice has another origin: "+bad)
+			// … and its backing array belongs to this picker alone: built from storage allocated in this call, and kept nowhere
+			// else (a published picker is read lock-free by gRPC while later regenerations run)
+			shared := sharedSliceRoots(call.Call.Args[0], map[ssa.Value]bool{})
+			for _, a := range pl.ai.ByFn[rp] {
+				if st, isSt := a.Instr.(*ssa.Store); isSt && a.isWrite() && !freshAt(a.Base, a.Instr) {
+					if _, isSlice := st.Val.Type().Underlying().(*types.Slice); isSlice && sameSliceFamily(st.Val, call.Call.Args[0]) {
+						shared = append(shared, "the snapshot is also stored in "+a.Field+" at "+p.ipos(st))
+					}
+				}
+			}
+			c.check(len(shared) == 0, "C02.snapshot", "snapshot storage is private to its picker", p.ipos(call), "the slice is built from storage allocated in this regeneration and is stored nowhere else: a published picker's snapshot never changes", "the snapshot's backing array is shared with storage that later regenerations rewrite: a superseded picker (still used lock-free by gRPC) can see channels that were not READY when it was published: "+strings.Join(shared, "; "))
 		}
+	}
+
+	// ---- C02.unknown-key: "a call with no key or an unknown key … is placed on a least-loaded READY channel": the bound
+	// lookup must report 'known' only for keys of the key table, and everything else must reach the load-based selection
+	if grs, gsr := pl.f("(*gcpBalancer).getReadySubConnRef"), pl.f("(*gcpPicker).getSubConnRef"); grs != nil && gsr != nil {
+		lookupRules(pl, grs, gsr, func(string) string { return "C02.unknown-key" })
 	}
 
 	// ---- C02.argmin
@@ -543,4 +561,94 @@ func checkArgmin(pl *pool, ms *ssa.Function) {
 		}
 	}
 	c.floor("C02.argmin", nphi, 1)
+}
+
+// sharedSliceRoots: roots of the slice value v (through append destinations, re-slicing and phis) that are not storage
+// allocated in the current function (array literal, make, nil).
+func sharedSliceRoots(v ssa.Value, seen map[ssa.Value]bool) []string {
+	v = stripConv(v)
+	if v == nil || seen[v] {
+		return nil
+	}
+	seen[v] = true
+	switch x := v.(type) {
+	case *ssa.Phi:
+		var out []string
+		for _, e := range x.Edges {
+			out = append(out, sharedSliceRoots(e, seen)...)
+		}
+		return out
+	case *ssa.Slice:
+		if al, ok := x.X.(*ssa.Alloc); ok {
+			_ = al
+			return nil // slice of an array allocated here (composite literal)
+		}
+		return sharedSliceRoots(x.X, seen)
+	case *ssa.MakeSlice:
+		return nil
+	case *ssa.Const:
+		return nil
+	case *ssa.Call:
+		if calleeOf(&x.Call).Builtin == "append" {
+			return sharedSliceRoots(x.Call.Args[0], seen)
+		}
+		return []string{"result of " + calleeOf(&x.Call).Name()}
+	case *ssa.UnOp:
+		if al, ok := x.X.(*ssa.Alloc); ok {
+			var out []string
+			for _, st := range storesTo(al) {
+				out = append(out, sharedSliceRoots(st.Val, seen)...)
+			}
+			return out
+		}
+		if f, _, ok := loadedField(x); ok {
+			return []string{"built on top of field " + f + " (re-used storage)"}
+		}
+	}
+	return []string{vstr(v)}
+}
+
+// sameSliceFamily: a and b are connected through append/re-slice/phi chains (may share a backing array).
+func sameSliceFamily(a, b ssa.Value) bool {
+	fam := func(v ssa.Value) map[ssa.Value]bool {
+		m := map[ssa.Value]bool{}
+		var walk func(v ssa.Value)
+		walk = func(v ssa.Value) {
+			v = stripConv(v)
+			if v == nil || m[v] {
+				return
+			}
+			m[v] = true
+			switch x := v.(type) {
+			case *ssa.Phi:
+				for _, e := range x.Edges {
+					walk(e)
+				}
+			case *ssa.Slice:
+				walk(x.X)
+			case *ssa.Call:
+				if calleeOf(&x.Call).Builtin == "append" {
+					walk(x.Call.Args[0])
+				}
+			case *ssa.UnOp:
+				if al, ok := x.X.(*ssa.Alloc); ok {
+					for _, st := range storesTo(al) {
+						walk(st.Val)
+					}
+				}
+			}
+		}
+		walk(v)
+		return m
+	}
+	fa, fb := fam(a), fam(b)
+	for v := range fa {
+		if _, isC := v.(*ssa.Const); isC {
+			continue
+		}
+		if fb[v] {
+			return true
+		}
+	}
+	return false
 }
